@@ -3,17 +3,22 @@
    atomic guarded step).  `proxy_src` = the switches READ FROM THE SOURCE on this run (Gen/ProxyTokens.v).
    `family` (Proofs/ProxyFam.v) = 466 configurations enumerated explicitly: 4 request shapes x retry_on x per-try x breaker x 5 pool
    scripts; non-forwarding routes; every 1- and 2-filter chain over the verdicts; hijack-and-continue chains; larger budgets.
-   `allowed` (Proofs/ProxyFamily.v) = the event alphabet: upstream response (status 200/503, three shapes) and reset (5 reasons)
+   `allowed` (Proofs/ProxyFamily.v) = the event alphabet: upstream response (status 200/503, with or without body+trailers) and reset (4 reasons)
    for ANY attempt index, per-try and global timer expiry, client disconnect, TerminateStream(403), wake-ups, worker steps.
    The `_family` theorems hold for EVERY schedule over that alphabet - any length, any interleaving. *)
 From Coq Require Import List ZArith Bool.
+(* Model.ProxyCheck (the correspondence checker used by the case shards) is imported so that it is built with this file *)
+From MV Require Import Model.ProxyCheck.
 From MV Require Import Model.Proxy Model.ProxySpec Proofs.ProxyReach Proofs.ProxyFamily Proofs.ProxyFam Proofs.ProxyRefute
-  Proofs.ProxyThm Proofs.ProxyGen Gen.ProxyTokens.
+  Proofs.ProxyThm Proofs.ProxyGen Proofs.ProxySrc Gen.ProxyTokens.
 Import ListNotations.
 Open Scope Z_scope.
 
 Theorem c03_translator_ok : ProxyTokens_translator_ok = true.
 Proof. exact (eq_refl true). Qed.
+(* the switches read from the source on this run are the ones the family theorems were proved for *)
+Theorem c03_source_is_verified_source : proxy_src = src_tree.
+Proof. exact (eq_refl src_tree). Qed.
 
 (* ---- at most one reply, well formed; cleanStream's effects at most once; for EVERY configuration and EVERY schedule ---- *)
 (* cleanStream runs at most once whatever happens: gauge decrement, access log and filter destroy are emitted together, and
@@ -93,7 +98,7 @@ Print Assumptions c03_reason_to_code.
 (* non-vacuity: a family member, a schedule over the alphabet that reaches quiescence with no defect pattern and a complete reply *)
 Example c03_example :
   let c := mk false false false RouteForward 2 true 0 [] true 1 [] [] [PoolConnFail] in
-  let sched := drive ++ [Env (EvUpResp 1 503 true false)] ++ drive ++ [Env (EvUpResp 2 200 true true)] ++ drive in
+  let sched := drive ++ [Env (EvUpResp 1 503 true true)] ++ drive ++ [Env (EvUpResp 2 200 true true)] ++ drive in
   In c family /\ Forall allowed sched /\ quiescent (final proxy_src c sched) = true /\ no_defect (final proxy_src c sched) = true /\
   g_ended (summ proxy_src c sched) = true /\ g_new (summ proxy_src c sched) = 3%nat.
 Proof. exact c03_example_holds. Qed.
